@@ -1581,7 +1581,7 @@ namespace awkward {
 
   const ContentPtr
   NumpyArray::num(int64_t axis, int64_t depth) const {
-    int64_t posaxis = axis_wrap_if_negative(axis);
+    int64_t posaxis = axis_wrap_if_negative(axis, depth);
     if (posaxis == depth) {
       Index64 out(1);
       out.setitem_at_nowrap(0, length());
@@ -1656,7 +1656,7 @@ namespace awkward {
 
   const std::pair<Index64, ContentPtr>
   NumpyArray::offsets_and_flattened(int64_t axis, int64_t depth) const {
-    int64_t posaxis = axis_wrap_if_negative(axis);
+    int64_t posaxis = axis_wrap_if_negative(axis, depth);
     if (posaxis == depth) {
       throw std::invalid_argument(
         std::string("axis=0 not allowed for flatten") + FILENAME(__LINE__));
@@ -3143,7 +3143,7 @@ namespace awkward {
     else if (ndim() > 1  ||  !iscontiguous()) {
       return toRegularArray().get()->rpad(target, axis, depth);
     }
-    int64_t posaxis = axis_wrap_if_negative(axis);
+    int64_t posaxis = axis_wrap_if_negative(axis, depth);
     if (posaxis != depth) {
       throw std::invalid_argument(
         std::string("axis exceeds the depth of this array") + FILENAME(__LINE__));
@@ -3167,7 +3167,7 @@ namespace awkward {
     else if (ndim() > 1  ||  !iscontiguous()) {
       return toRegularArray().get()->rpad_and_clip(target, axis, depth);
     }
-    int64_t posaxis = axis_wrap_if_negative(axis);
+    int64_t posaxis = axis_wrap_if_negative(axis, depth);
     if (posaxis != depth) {
       throw std::invalid_argument(
         std::string("axis exceeds the depth of this array") + FILENAME(__LINE__));
@@ -3362,7 +3362,7 @@ namespace awkward {
 
   const ContentPtr
   NumpyArray::localindex(int64_t axis, int64_t depth) const {
-    int64_t posaxis = axis_wrap_if_negative(axis);
+    int64_t posaxis = axis_wrap_if_negative(axis, depth);
     if (posaxis == depth) {
       return localindex_axis0();
     }
@@ -3387,7 +3387,7 @@ namespace awkward {
         std::string("in combinations, 'n' must be at least 1") + FILENAME(__LINE__));
     }
 
-    int64_t posaxis = axis_wrap_if_negative(axis);
+    int64_t posaxis = axis_wrap_if_negative(axis, depth);
     if (posaxis == depth) {
       return combinations_axis0(n, replacement, recordlookup, parameters);
     }
